@@ -85,6 +85,7 @@ ALPHABETS = {
     "neg": (-2.0, 0.0, 3.0),
     "base4": (-2.0, 0.0, 1.0, 3.0),
     "huge": (0.0, 1.0, 1e14),
+    "tiny": (0.0, 2.0 ** -50, 3 * 2.0 ** -50),      # every sum is an exact multiple of 2^-50
 }
 
 
@@ -93,11 +94,11 @@ def plan(tier, mode):
     units = []
     for (T, K) in shapes(tier, mode):
         cells = T * K
-        for name in (("base3", "neg", "huge") if tier == "quick" else ("base4", "huge")):
+        for name in (("base3", "neg", "huge", "tiny") if tier == "quick" else ("base4", "huge", "tiny")):
             vals = ALPHABETS[name]
-            if tier == "quick" and name in ("neg", "huge") and cells > 6:
+            if tier == "quick" and name in ("neg", "huge", "tiny") and cells > 6:
                 continue
-            if tier == "thorough" and name == "huge" and cells > 8:
+            if tier == "thorough" and name in ("huge", "tiny") and cells > 8:
                 continue
             if tier == "thorough" and name == "base4" and cells > 8:
                 vals = ALPHABETS["base3"]      # 4^8 = 65536 tables per shape is the affordable end of base4
@@ -201,6 +202,11 @@ def work(unit):
             continue
         if name == "huge" and kind == "vec" and max(value) > 2:
             continue
+        if name == "tiny":
+            # switching costs on the same scale as the table
+            if kind in ("int", "np64"):
+                continue
+            value = value * 2.0 ** -50 if kind == "float" else [v * 2.0 ** -50 for v in value]
         beta = make_beta(kind, value)
         bvec = refs.beta_vector(beta, T)
         switch = diff @ bvec[:T - 1] if T > 1 else np.zeros(len(seqs))
@@ -385,7 +391,7 @@ def run(ctx):
     ctx.cov["exhaustive"] = True
     ctx.cov["shapes"] = {m: [list(s) for s in shapes(ctx.tier, m)] for m in ("nojit", "jit")}
     ctx.cov["rule"] = (
-        "every cost table over the integer alphabets {0,1,3}, {-2,0,3}/{-2,0,1,3}, {0,1,1e14} for every "
+        "every cost table over the integer alphabets {0,1,3}, {-2,0,3}/{-2,0,1,3}, {0,1,1e14}, {0,1,3}x2^-50 (with switching costs x2^-50) for every "
         "listed (T,K), x every beta in the menu (scalars 0,0.5,1,2,5 as float, 0,1,2,5 also as int/np.float64; int64/float32/int32 tables for T*K<=6 with beta 0.5 and 1, every vector "
         "in {0,2}^T and {0,1,5}^T); oracle = brute force over all K^T sequences, exact equality; "
         "distinct_nontrivial counts distinct (table,beta) pairs (float/vector betas, interpreted pass "
